@@ -365,6 +365,17 @@ OBLIGATIONS += [
        ["RawCallbackSystem::run_with_cleanup", "run_initialized_system (exclusive branch)"], ["src/ecs/callbacks.rs"],
        "2 runs of one exclusive (&mut World) system that queues one command",
        "per run: body, cleanup, then the body's queued commands; initialized exactly once"),
+    k2("despawn.watched_direct", _k2h("react::reaction_triggers_impl", "watched_entity_despawned_directly"), ["C08", "C07"],
+       ["Drop for DespawnTracker", "Drop of EntityReactors (ReactorHandle / AutoDespawnSignal drop glue)"],
+       ["src/react/reaction_triggers_impl.rs", "src/react/utils.rs", "src/ecs/auto_despawn.rs"],
+       "a watched entity carrying a tracker and an entity-scoped table with one ref-counted reactor; a second watched entity stays alive",
+       "despawning the watched entity reports it exactly once and releases the reactor whose last registration lived on it exactly "
+       "once; the other watched entity reports nothing", ("thorough",)),
+    k2("despawn.watched_via_parent", _k2h("react::reaction_triggers_impl", "watched_entity_despawned_with_its_parent"), ["C08", "C07", "C10"],
+       ["Drop for DespawnTracker", "Drop of EntityReactors (ReactorHandle / AutoDespawnSignal drop glue)"],
+       ["src/react/reaction_triggers_impl.rs", "src/react/utils.rs", "src/ecs/auto_despawn.rs"],
+       "as despawn.watched_direct, the watched entity being taken down by a recursive despawn of its parent",
+       "a despawn caused by the owner's recursive despawn is reported exactly once, for the watched entity; its reactor is released once"),
     k2("readers.entity_local", _k2h("react::entity_reaction_readers", "entity_local_exposes_the_source_entitys_data"), ["C16", "C03"],
        ["EntityLocal::entity", "EntityLocal::get", "EntityLocal::get_mut", "EntityLocal::check", "EntityReactor::system"],
        ["src/react/entity_reaction_readers.rs", "src/react/entity_world_reactor.rs"],
